@@ -60,8 +60,8 @@ Choices ==
   LET c == RandomElement(1..20) IN
   IF Len(prog) = MaxItems - 1 THEN Items(NoFallForms)
   ELSE IF (PrevNoFall \/ PrevIsData) /\ c <= 8 THEN (IF c <= 4 \/ ~WithVectors THEN DataItems ELSE VecItems)
-  ELSE IF c <= 11 THEN Items(NoFallForms)
-  ELSE IF c <= 15 THEN Items(FlowForms)
+  ELSE IF c <= 10 THEN Items(NoFallForms)
+  ELSE IF c <= 13 THEN Items(FlowForms)
   ELSE Items(FormsG)
 
 Next == /\ Len(prog) < MaxItems
@@ -110,7 +110,9 @@ Out(E) ==
   [isa |-> IsaName, cpu |-> Cpu, org |-> org, bytes |-> ImageSeq, entries |-> E, vecs |-> VecList,
    code |-> fin.code, data |-> fin.data, reach |-> ReachBytes(Img, AllEntries(E)),
    ids |-> [i \in 1..Len(prog) |-> IF prog[i].k = "ins" THEN prog[i].f.id ELSE prog[i].k],
-   starts |-> ReachStarts(Img, AllEntries(E))]
+   starts |-> ReachStarts(Img, AllEntries(E)),
+   \* addresses directly behind reachable indirect jumps (flow "stop"): a tracer must not continue there
+   stopends |-> {a + DecodeAt(Img, a).len : a \in {s \in ReachStarts(Img, AllEntries(E)) : DecodeAt(Img, s).flow = "stop"}}]
 
 Dump == Finished =>
           (IF WellFormed THEN LET E == Entries IN (IF ValidStream(E) THEN PrintT(<<"BEH", ToJson(Out(E))>>) ELSE TRUE)
